@@ -18,17 +18,51 @@ def digest_of(spec, mdesc):
     return hashlib.sha256(json.dumps(d, sort_keys=True, default=str).encode()).hexdigest()
 
 
+def wrapper_digests(spec, mdesc, workdir):
+    """the graph through create_attack_graph from a .mar and from the printed .mal (model file: json)"""
+    import os
+    import zipfile
+    from mtv import malprint
+    from mtv.modelgen import build_language, build_model
+    from maltoolbox.wrappers import create_attack_graph
+    lg, cf = build_language(spec)
+    model, objs = build_model(cf, spec, mdesc)
+    mpath = os.path.join(workdir, 'model.json')
+    model.save_to_file(mpath)
+    mar = os.path.join(workdir, 'lang.mar')
+    with zipfile.ZipFile(mar, 'w') as z:
+        z.writestr('langspec.json', json.dumps(spec))
+    for f in os.listdir(workdir):
+        if f.endswith('.mal'):
+            os.unlink(os.path.join(workdir, f))
+    mal = malprint.write_layout(spec, workdir, None, {})
+    out = []
+    for lang_file in (mar, mal):
+        g = create_attack_graph(lang_file, mpath)
+        out.append(hashlib.sha256(json.dumps(g._to_dict(), sort_keys=True, default=str).encode()).hexdigest())
+    return out
+
+
 def main():
     from mtv import env
     env.setup()
     with open(sys.argv[1]) as f:
         batch = json.load(f)
+    import os
+    workdir = os.path.join(os.getcwd(), 'wrapper-files')
+    os.makedirs(workdir, exist_ok=True)
     out = []
     for c in batch:
         try:
-            out.append(digest_of(c['spec'], c['model']))
+            d = [digest_of(c['spec'], c['model'])]
         except BaseException as e:  # noqa: BLE001
-            out.append(f'error:{type(e).__name__}')
+            out.append([f'error:{type(e).__name__}'])
+            continue
+        try:
+            d += wrapper_digests(c['spec'], c['model'], workdir)
+        except BaseException as e:  # noqa: BLE001
+            d += [f'error:{type(e).__name__}'] * 2
+        out.append(d)
     print('DIGESTS ' + json.dumps(out))
 
 
